@@ -22,16 +22,19 @@ class CoqError(Exception):
     pass
 
 
-def ensure_built(timeout=1800):
-    """Full .vo build of the development (no-op when up to date)."""
+def ensure_built(timeout=3000):
+    """Full .vo build of the development (no-op when up to date).  `make -k`: a file that
+    does not compile does not stop the others; the proof stage then fails only for the
+    properties whose Props file (or a dependency of it) is affected."""
     lock = os.path.join(env.COQ_DIR, ".build.lock")
     with open(lock, "w") as lf:
         fcntl.flock(lf, fcntl.LOCK_EX)
-        if not os.path.exists(os.path.join(env.COQ_DIR, "Makefile")) or \
-                os.path.getmtime(os.path.join(env.COQ_DIR, "Makefile")) < os.path.getmtime(os.path.join(env.COQ_DIR, "_CoqProject")):
+        subprocess.run(["sh", os.path.join(env.COQ_DIR, "gen_project.sh")], check=True)
+        mk = os.path.join(env.COQ_DIR, "Makefile")
+        if not os.path.exists(mk) or os.path.getmtime(mk) < os.path.getmtime(os.path.join(env.COQ_DIR, "_CoqProject")):
             subprocess.run(["coq_makefile", "-f", "_CoqProject", "-o", "Makefile"], cwd=env.COQ_DIR,
                            check=True, stdout=subprocess.DEVNULL, stderr=subprocess.DEVNULL)
-        p = subprocess.run(["timeout", str(timeout), "make", "-j%d" % env.NPROC], cwd=env.COQ_DIR,
+        p = subprocess.run(["timeout", str(timeout), "make", "-k", "-j%d" % env.NPROC], cwd=env.COQ_DIR,
                            stdout=subprocess.PIPE, stderr=subprocess.STDOUT, text=True)
         return p.returncode, p.stdout
 
